@@ -877,8 +877,10 @@ class TaskGroup(abc.TaskGroup):
                     if not isinstance(exc, CancelledError):
                         self._exceptions.append(exc)
 
-                    if not self.cancel_scope._effectively_cancelled:
-                        self.cancel_scope.cancel()
+                    # Always cancel the task group's own scope: it may only be effectively
+                    # cancelled through an enclosing scope right now, and that can change
+                    # if a shield is raised in between
+                    self.cancel_scope.cancel()
                 else:
                     task_status_future.set_exception(exc)
             elif task_status_future is not None and not task_status_future.done():
